@@ -20,17 +20,17 @@ for m in ([] if pre == "-" else pre.split(",")):
 mod = bundled.load(target)
 for m in ([] if post == "-" else post.split(",")):
     bundled.load(m)
-cls = mod.Rule
+classes = [v for k, v in sorted(vars(mod).items()) if isinstance(v, type) and issubclass(v, P.Rule) and v.__module__ == mod.__name__]
 out = {}
-for rule in cls.rules():
-    rng = random.Random(f"{seed}:{target}:{rule.name}")
+for cls, rule in [(c, r) for c in classes for r in c.rules()]:
+    rng = random.Random(f"{seed}:{target}:{cls.__name__}:{rule.name}")
     sg = bundled.SentenceGen(P, rng, maxlen=60)
     res = []
     for k in range(nsent):
         s = sg.sentence(rule)
         if k % 2 == 1:
             s = sg.mutate(s)
-        res.append([s, lib.py_parse(P, rule, s, 0)])
-    out[rule.name] = {"flag": rule.first_match_alternation,
+        res.append([s, lib.py_parse(P, rule, s, 0), lib.py_lparse(P, rule, s, 0, full=False)])
+    out[cls.__name__ + "." + rule.name] = {"flag": rule.first_match_alternation,
                       "digest": hashlib.sha256(json.dumps(res).encode()).hexdigest()[:16], "results": res}
 print(json.dumps(out))
